@@ -146,6 +146,15 @@ def entry_points(path, payload_is_json):
                 raise ValueError("validate_compact returned a falsy value")
             return _norm(o)
         eps.append(("jws.validate_compact", vc))
+
+        def vc2(t, k, a, p):
+            o = jws.extract_compact(t.encode())
+            other = make_base("HS256", "oct32", "compact", "protected", b'{"iss":"someone else"}').wire()
+            jws.extract_compact(other.encode())        # an unrelated token is parsed in between
+            if jws.validate_compact(o, k, algorithms=a) is not True:
+                raise ValueError("validate_compact returned a falsy value")
+            return _norm(o)
+        eps.append(("jws.validate_compact after another extract_compact", vc2))
         eps.append(("rfc7797.deserialize_compact", lambda t, k, a, p: _norm(rfc7797.deserialize_compact(t, k, algorithms=a))))
         if payload_is_json:
             def jd(t, k, a, p):
@@ -203,14 +212,14 @@ def flip(data, bit):
 
 
 FAULTS = ["none", "bitflip-header", "bitflip-payload", "bitflip-signature", "signature-truncate", "signature-extend",
-          "signature-reencode", "splice", "splice-other-key", "structural", "key-substitution", "caller-payload"]
+          "signature-reencode", "splice", "splice-other-key", "structural", "key-substitution", "caller-payload", "respell-header"]
 
 
 def apply_fault(ctx, tok, kind, fault, alg, path, placement, stride=1, tag=""):
     """Mutates tok according to `fault` (sub-choices via ctx.choose). Returns (description, key_override or None),
     or None when the fault does not apply to this base."""
     m_idx = 0
-    if path == "general" and fault.startswith(("bitflip-header", "bitflip-signature", "signature-")):
+    if path == "general" and fault.startswith(("bitflip-header", "bitflip-signature", "signature-", "respell-header")):
         m_idx = ctx.choose(tag + "member", [0, 1])
     m = tok.members[m_idx]
     if fault == "bitflip-header":
@@ -219,6 +228,16 @@ def apply_fault(ctx, tok, kind, fault, alg, path, placement, stride=1, tag=""):
         bit = ctx.choose(tag + "bit", range(0, len(m["protected"]) * 8, stride))
         m["protected"] = flip(m["protected"], bit)
         return f"bit {bit} of protected header #{m_idx}", None
+    if fault == "respell-header":
+        # other octets, same JSON members: the signature was made over the original octets
+        if m["protected"] is None:
+            return None
+        h = json.loads(m["protected"])
+        sp = [s for s in A.spellings(h) if s[1].encode("utf-8") != m["protected"]]
+        name, text = ctx.choose(tag + "spelling", sp)
+        for mm in (tok.members if path != "general" else [m]):
+            mm["protected"] = text.encode("utf-8") if mm is m or mm["protected"] == m["protected"] else mm["protected"]
+        return f"protected header #{m_idx} re-spelled ({name}), same members", None
     if fault == "bitflip-payload":
         if path == "7797-detached" or not tok.payload:
             return None
